@@ -276,14 +276,14 @@ fn colours<S: Fl>(kind: Kind, full: bool) -> (Vec<[S; 3]>, Vec<[S; 3]>) {
             d = if full { vec![t3(210.0, 0.5, 0.4), t3(10.0, 0.9, 0.1), t3(30.0 + 180.0, 0.1, 0.2)] } else { vec![t3(210.0, 0.5, 0.4), t3(10.0, 0.9, 0.1)] };
         }
         Kind::Lab(_) => {
-            c = vec![t3(0.0, 0.0, 0.0), t3(100.0, 0.0, 0.0), t3(50.0, 40.0, 30.0), t3(70.0, -60.0, 20.0), t3(30.0, 10.0, -80.0), t3(50.0, -40.0, -30.0), t3(-10.0, 0.0, 5.0), t3(120.0, 130.0, -140.0)];
+            c = vec![t3(0.0, 0.0, 0.0), t3(100.0, 0.0, 0.0), t3(50.0, 40.0, 30.0), t3(70.0, -60.0, 20.0), t3(30.0, 10.0, -80.0), t3(50.0, -40.0, -30.0), t3(-10.0, 0.0, 5.0), t3(120.0, 130.0, -140.0), t3(40.0, 29.5, 5.2)];
             if full {
                 c.extend([t3(50.0, 2.5, 0.0), t3(50.0, 0.0, -2.5), t3(60.0, -34.0, 36.0), t3(35.0, 1.0, -1.0), t3(90.0, 20.0, 90.0), t3(10.0, 30.0, 10.0), t3(50.0, 1e-7, 0.0), t3(50.0, 127.0, -128.0)]);
             }
             d = if full { vec![t3(60.0, 20.0, -10.0), t3(20.0, -30.0, 40.0), t3(50.0, 3.0, -3.0)] } else { vec![t3(60.0, 20.0, -10.0), t3(20.0, -30.0, 40.0)] };
         }
         Kind::Lch(_) => {
-            c = vec![t3(0.0, 0.0, 0.0), t3(100.0, 0.0, 0.0), t3(50.0, 50.0, 36.87), t3(70.0, 63.0, 161.0), t3(30.0, 80.0, -83.0), t3(50.0, 50.0, 216.87), t3(-10.0, 5.0, 90.0), t3(120.0, 190.0, 540.0)];
+            c = vec![t3(0.0, 0.0, 0.0), t3(100.0, 0.0, 0.0), t3(50.0, 50.0, 36.87), t3(70.0, 63.0, 161.0), t3(30.0, 80.0, -83.0), t3(50.0, 50.0, 216.87), t3(-10.0, 5.0, 90.0), t3(120.0, 190.0, 540.0), t3(40.0, 30.0, 10.0)];
             if full {
                 c.extend([t3(50.0, 2.5, 0.0), t3(50.0, 2.5, 270.0), t3(60.0, 49.5, 133.4), t3(35.0, 1.4, 315.0), t3(90.0, 92.0, 77.5), t3(10.0, 31.0, 18.4), t3(50.0, -5.0, 10.0), t3(50.0, 128.0, 359.999)]);
             }
@@ -476,7 +476,7 @@ pub fn check_op_scalar<V: Vect>(t: &OpType<V>, op: &str, fv: OpFn<V>, fs: OpFn<V
                 }
             }
             if verbose {
-                println!("  {}.{} {:?}: simd {:?} scalar {:?} rel.err {:e} (tol {:e})", t.name, op, val_state(x).to_string(), f4(rv[0]), f4(rs), worst, tol);
+                println!("  {}.{} {}: simd {} scalar {} rel.err {:e} (tol {:e})", t.name, op, val_state(x), json!(f4(rv[0])), json!(f4(rs)), worst, tol);
             }
             if worst <= tol {
                 c.ratio(&format!("operators/{}", V::NAME), worst / tol, || mk(json!({"simd": f4(rv[0]), "rel_err": worst}), json!({"scalar": f4(rs)})));
@@ -602,7 +602,7 @@ pub fn replay_ops<V: Vect>(types: &[OpType<V>], case: &Value, c: &mut Collector)
         let lane = case["lane"].as_u64().unwrap_or(0) as usize;
         let rx = run_v::<V>(fv, &[x; MAXN][..V::N]).expect("splat x");
         let ry = run_v::<V>(fv, &[y; MAXN][..V::N]).expect("splat y");
-        println!("{}.{} ({}): x = {} in lane {}, y = {} elsewhere; f(splat x) = {:?}, f(splat y) = {:?}", t.name, name, V::NAME, val_state(&x), lane, val_state(&y), f4(rx[0]), f4(ry[0]));
+        println!("{}.{} ({}): x = {} in lane {}, y = {} elsewhere; f(splat x) = {}, f(splat y) = {}", t.name, name, V::NAME, val_state(&x), lane, val_state(&y), json!(f4(rx[0])), json!(f4(ry[0])));
         for j in 1..V::N {
             if !same4(rx[j], rx[0]) {
                 c.violation(&format!("C17/operator-lane-independence/{}/{}.{}/splat-not-uniform", V::NAME, t.name, name), 1.0, || json!({"lane": j}));
